@@ -51,6 +51,7 @@ type MapVal struct {
 	ElemT   types.Type
 	Name    string
 	Origin  string
+	Sync    bool // models a sync.Map
 }
 
 type IfaceVal struct {
